@@ -26,6 +26,13 @@ const (
 	k41Read       = "READ"
 	k41LookupFail = "LOOKUP_FAIL"
 	k41Noop       = "SEQUENCE_ONLY"
+	k41FreeSid    = "FREE_STATEID"
+	k41OpenPrev   = "OPEN_PREVIOUS"
+	k41SeqTwice   = "SEQUENCE_TWICE"
+	k41CloseBad   = "CLOSE_BAD_STATEID"
+	k41OpenDeny   = "OPEN_SHARE_DENY"
+	k41LockInval  = "LOCK_ZERO_LENGTH"
+	k41DestroyS   = "DESTROY_SESSION"
 )
 
 type client41 struct {
@@ -104,6 +111,7 @@ type op41 struct {
 	stateid nfsv4.Stateid4
 	want    nfsv4.Nfsstat4
 	gate    gateKind
+	victim  *sess41 // DESTROY_SESSION: the session to destroy
 }
 
 func (op *op41) String() string {
@@ -192,6 +200,28 @@ func (v *v41) ops(op *op41) []nfsv4.NfsArgop4 {
 		return []nfsv4.NfsArgop4{&nfsv4.NfsArgop4_OP_PUTROOTFH{}, &nfsv4.NfsArgop4_OP_LOOKUP{Oplookup: nfsv4.Lookup4args{Objname: "missing"}}, &nfsv4.NfsArgop4_OP_GETFH{}}
 	case k41Noop:
 		return nil
+	case k41FreeSid:
+		return []nfsv4.NfsArgop4{&nfsv4.NfsArgop4_OP_FREE_STATEID{OpfreeStateid: nfsv4.FreeStateid4args{FsaStateid: op.stateid}}}
+	case k41OpenPrev:
+		return []nfsv4.NfsArgop4{opPutFH(op.fh), v.openArgs(op, op.o.name, &nfsv4.OpenClaim4_CLAIM_PREVIOUS{DelegateType: nfsv4.OPEN_DELEGATE_NONE})}
+	case k41SeqTwice:
+		return []nfsv4.NfsArgop4{&nfsv4.NfsArgop4_OP_SEQUENCE{Opsequence: nfsv4.Sequence4args{SaSessionid: op.c.sessions[0].id, SaSequenceid: 1}}, &nfsv4.NfsArgop4_OP_PUTROOTFH{}}
+	case k41CloseBad:
+		return []nfsv4.NfsArgop4{opPutFH(op.fh), &nfsv4.NfsArgop4_OP_CLOSE{Opclose: nfsv4.Close4args{OpenStateid: nfsv4.Stateid4{Seqid: 1, Other: [12]byte{0xee, 0xee, 0xee, 0xee, 0xee, 0xee, 0xee, 0xee}}}}}
+	case k41OpenDeny:
+		a := v.openArgs(op, op.o.name, &nfsv4.OpenClaim4_CLAIM_NULL{File: op.fname})
+		a.Opopen.ShareDeny = nfsv4.OPEN4_SHARE_DENY_BOTH
+		return []nfsv4.NfsArgop4{&nfsv4.NfsArgop4_OP_PUTROOTFH{}, a}
+	case k41LockInval:
+		return []nfsv4.NfsArgop4{opPutFH(op.fh), &nfsv4.NfsArgop4_OP_LOCK{Oplock: nfsv4.Lock4args{
+			Locktype: nfsv4.WRITE_LT, Offset: 3, Length: 0,
+			Locker: &nfsv4.Locker4_TRUE{OpenOwner: nfsv4.OpenToLockOwner4{
+				OpenStateid: op.stateid,
+				LockOwner:   nfsv4.LockOwner4{Clientid: op.c.id, Owner: []byte(op.lo)},
+			}},
+		}}}
+	case k41DestroyS:
+		return []nfsv4.NfsArgop4{&nfsv4.NfsArgop4_OP_DESTROY_SESSION{OpdestroySession: nfsv4.DestroySession4args{DsaSessionid: op.victim.id}}}
 	}
 	panic("harness: unknown op kind " + op.kind)
 }
@@ -201,10 +231,25 @@ func (v *v41) request(s *slot41, seq uint32, cache bool, tag string, ops []nfsv4
 		SaSessionid:     s.sess.id,
 		SaSequenceid:    seq,
 		SaSlotid:        s.idx,
-		SaHighestSlotid: uint32(len(s.sess.slots) - 1),
+		SaHighestSlotid: v.highestSlotid(s),
 		SaCachethis:     cache,
 	}}}, ops...)
 	return encodeArgs(compound(1, tag, all...))
+}
+
+// highestSlotid picks sa_highest_slotid: usually the last slot, sometimes
+// the slot in use, a lower one, or one beyond the table. The programs do
+// not shrink their slot table, so the value must not matter.
+func (v *v41) highestSlotid(s *slot41) uint32 {
+	switch v.rng.IntN(6) {
+	case 0:
+		return s.idx
+	case 1:
+		return 0
+	case 2:
+		return uint32(len(s.sess.slots)) + 3
+	}
+	return uint32(len(s.sess.slots) - 1)
 }
 
 func (v *v41) desync(what string, st nfsv4.Nfsstat4) {
@@ -433,6 +478,16 @@ func (v *v41) next(c *client41) *op41 {
 			cands = append(cands, cand{3, func() *op41 {
 				return &op41{kind: k41Close, c: c, o: o, of: of, fname: of.fname, fh: of.fh, stateid: of.stateid, want: nfsv4.NFS4_OK}
 			}})
+			cands = append(cands, cand{1, func() *op41 {
+				access := pick(rng, []uint32{nfsv4.OPEN4_SHARE_ACCESS_READ, nfsv4.OPEN4_SHARE_ACCESS_WRITE, nfsv4.OPEN4_SHARE_ACCESS_BOTH})
+				return &op41{kind: k41OpenPrev, c: c, o: o, of: of, fname: of.fname, fh: of.fh, access: access, want: nfsv4.NFS4_OK}
+			}})
+			cands = append(cands, cand{1, func() *op41 {
+				if rng.IntN(2) == 0 {
+					return &op41{kind: k41CloseBad, c: c, o: o, fname: of.fname, fh: of.fh, want: nfsv4.NFS4ERR_BAD_STATEID}
+				}
+				return &op41{kind: k41LockInval, c: c, o: o, of: of, fname: of.fname, fh: of.fh, lo: o.lockOwns[0], stateid: of.stateid, want: nfsv4.NFS4ERR_INVAL}
+			}})
 			if of.access == nfsv4.OPEN4_SHARE_ACCESS_BOTH {
 				cands = append(cands, cand{2, func() *op41 {
 					to := uint32(nfsv4.OPEN4_SHARE_ACCESS_READ)
@@ -472,6 +527,15 @@ func (v *v41) next(c *client41) *op41 {
 					}
 					return &op41{kind: k41Lock, c: c, o: o, of: of, fname: of.fname, fh: of.fh, lo: lo, lf: lf, slot: slot, ltype: lt, stateid: lf.stateid, want: want}
 				}})
+				cands = append(cands, cand{1, func() *op41 {
+					// FREE_STATEID of the lock state: refused while
+					// it holds locks.
+					want := nfsv4.Nfsstat4(nfsv4.NFS4_OK)
+					if len(lf.slots) > 0 {
+						want = nfsv4.NFS4ERR_LOCKS_HELD
+					}
+					return &op41{kind: k41FreeSid, c: c, o: o, of: of, fname: of.fname, lo: lo, lf: lf, stateid: lf.stateid, want: want}
+				}})
 				if len(lf.slots) > 0 {
 					cands = append(cands, cand{3, func() *op41 {
 						slots := make([]int, 0, len(lf.slots))
@@ -492,6 +556,19 @@ func (v *v41) next(c *client41) *op41 {
 		}},
 		cand{1, func() *op41 { return &op41{kind: k41LookupFail, c: c, want: nfsv4.NFS4ERR_NOENT} }},
 		cand{1, func() *op41 { return &op41{kind: k41Noop, c: c, want: nfsv4.NFS4_OK} }},
+		cand{1, func() *op41 { return &op41{kind: k41SeqTwice, c: c, want: nfsv4.NFS4ERR_SEQUENCE_POS} }},
+		cand{1, func() *op41 {
+			if rng.IntN(2) == 0 {
+				return &op41{kind: k41OpenDeny, c: c, o: o0, fname: "f0", access: nfsv4.OPEN4_SHARE_ACCESS_READ, want: nfsv4.NFS4ERR_SHARE_DENIED}
+			}
+			// CLAIM_PREVIOUS of a file the owner does not have open.
+			for _, n := range names40 {
+				if o0.files[n] == nil {
+					return &op41{kind: k41OpenPrev, c: c, o: o0, fname: n, fh: v.fs.leaf(n).handle, access: nfsv4.OPEN4_SHARE_ACCESS_READ, want: nfsv4.NFS4ERR_RECLAIM_BAD}
+				}
+			}
+			return nil
+		}},
 		cand{1, func() *op41 {
 			return &op41{kind: k41OpenClose, c: c, fname: pick(rng, names40), access: nfsv4.OPEN4_SHARE_ACCESS_READ, want: nfsv4.NFS4_OK}
 		}},
@@ -533,6 +610,22 @@ func (v *v41) apply(op *op41, res *nfsv4.Compound4res) bool {
 	c := op.c
 	sid, _, haveSid := replyStateid(res)
 	switch op.kind {
+	case k41FreeSid:
+		if op.want == nfsv4.NFS4_OK {
+			c.retire(op.lf.stateid)
+			delete(op.of.locks, op.lo)
+		}
+	case k41OpenPrev:
+		if op.want != nfsv4.NFS4_OK {
+			break
+		}
+		if !haveSid {
+			v.desync("OPEN reply without state ID", res.Status)
+			return false
+		}
+		c.retire(op.of.stateid)
+		op.of.stateid = sid
+		op.of.access |= op.access
 	case k41Open, k41OpenFH:
 		if !haveSid {
 			v.desync(op.kind+" reply without state ID", res.Status)
@@ -672,10 +765,12 @@ func (v *v41) runTracked(op *op41, allowDup bool) {
 		if !v.abort {
 			v.checkReplay(s, "after-unrelated")
 		}
-	case x < 0.78:
+	case x < 0.74:
 		v.checkMisordered(s)
-	default:
+	case x < 0.88:
 		v.checkFalseRetry(s)
+	default:
+		v.checkSlotTable(s)
 	}
 }
 
@@ -838,7 +933,10 @@ func (v *v41) rejected(what string, s *slot41, req []byte, detail string) {
 			fmt.Sprintf("%s: rejected with %s but changed observable state", detail, statusName(st)),
 			map[string]any{"before": before, "after": after})
 	}
-	if s.present && v.rng.IntN(3) == 0 {
+	if s.present && v.rng.IntN(3) == 0 && !strings.HasPrefix(what, "too-many-ops") {
+		// (A request with the next sequence ID acknowledges the previous
+		// reply, so a server may drop it even if it then refuses the
+		// request for having too many operations.)
 		v.checkReplay(s, "after-"+what)
 	}
 }
@@ -1040,8 +1138,12 @@ func run41(h *hist) {
 	steps := 14 + h.rng.IntN(14)
 	for i := 0; i < steps && !v.abort; i++ {
 		c := pick(h.rng, v.clients)
-		if i > 0 && h.rng.IntN(25) == 0 && len(c.sessions) < 2 {
+		if i > 0 && h.rng.IntN(10) == 0 && len(c.sessions) < 2 {
 			v.createSession(c)
+			continue
+		}
+		if len(c.sessions) == 2 && h.rng.IntN(5) == 0 {
+			v.destroySession(c)
 			continue
 		}
 		if i > 1 && h.rng.IntN(14) == 0 {
@@ -1291,4 +1393,245 @@ func (v *v41) reboot(c *client41) {
 	c.probe = sess.slots[len(sess.slots)-1]
 	v.logf("c%d continues as clientid=%x", c.idx, c.id)
 	v.csReplay(c, "after-delay")
+}
+
+// checkSlotTable sends requests that the session and slot machinery has to
+// refuse before executing anything: unknown session, slot beyond the
+// table, too many operations, operations outside a session, session
+// management operations that are not alone in their COMPOUND, DESTROY of a
+// busy client ID, CREATE_SESSION for an unknown client ID. None of them may
+// execute, change state, consume a sequence ID, or be answered from a
+// reply cache. It also retransmits EXCHANGE_ID, which must be idempotent.
+func (v *v41) checkSlotTable(s *slot41) {
+	c := s.op.c
+	op := v.next(c)
+	if op == nil {
+		return
+	}
+	ops := v.ops(op)
+	what := pick(v.rng, []string{"bad-session", "bad-slot", "too-many-ops", "no-sequence", "create-session-not-only-op", "destroy-session-not-only-op", "exchange-id-not-only-op", "destroy-clientid-busy", "create-session-stale-clientid", "exchange-id-again"})
+	var req []byte
+	switch what {
+	case "bad-session":
+		fake := &slot41{sess: &sess41{id: s.sess.id, slots: s.sess.slots}, idx: s.idx}
+		fake.sess.id[3] ^= 0x5a
+		req = v.request(fake, s.seq+1, true, op.kind, ops)
+	case "bad-slot":
+		fake := &slot41{sess: s.sess, idx: uint32(len(s.sess.slots) + v.rng.IntN(3))}
+		req = v.request(fake, 1, true, op.kind, ops)
+	case "too-many-ops":
+		many := make([]nfsv4.NfsArgop4, 0, 20)
+		for len(many) < 14 {
+			many = append(many, &nfsv4.NfsArgop4_OP_PUTROOTFH{})
+		}
+		req = v.request(s, s.seq+1, true, "too-many", append(many, ops...))
+		if 1+len(many)+len(ops) <= 16 {
+			req = v.request(s, s.seq+1, true, "too-many", append(append(many, &nfsv4.NfsArgop4_OP_PUTROOTFH{}, &nfsv4.NfsArgop4_OP_PUTROOTFH{}), ops...))
+		}
+	case "no-sequence":
+		if len(ops) == 0 {
+			ops = []nfsv4.NfsArgop4{&nfsv4.NfsArgop4_OP_PUTROOTFH{}}
+		}
+		req = encodeArgs(compound(1, "no-sequence", ops...))
+	case "create-session-not-only-op":
+		a := decodeArgs(v.createSessionReq(c, c.csSeq+1))
+		a.Argarray = append(a.Argarray, &nfsv4.NfsArgop4_OP_PUTROOTFH{})
+		req = encodeArgs(a)
+	case "destroy-session-not-only-op":
+		req = encodeArgs(compound(1, "destroy", &nfsv4.NfsArgop4_OP_DESTROY_SESSION{OpdestroySession: nfsv4.DestroySession4args{DsaSessionid: s.sess.id}}, &nfsv4.NfsArgop4_OP_PUTROOTFH{}))
+	case "exchange-id-not-only-op":
+		req = encodeArgs(compound(1, "exchange_id", &nfsv4.NfsArgop4_OP_EXCHANGE_ID{OpexchangeId: nfsv4.ExchangeId4args{
+			EiaClientowner:  nfsv4.ClientOwner4{CoVerifier: [8]byte{9, 9, 9}, CoOwnerid: c.ownerID},
+			EiaStateProtect: &nfsv4.StateProtect4A_SP4_NONE{},
+		}}, &nfsv4.NfsArgop4_OP_PUTROOTFH{}))
+	case "destroy-clientid-busy":
+		req = encodeArgs(compound(1, "destroy_clientid", &nfsv4.NfsArgop4_OP_DESTROY_CLIENTID{OpdestroyClientid: nfsv4.DestroyClientid4args{DcaClientid: c.id}}))
+	case "create-session-stale-clientid":
+		bogus := *c
+		bogus.id ^= 0x5a5a
+		req = v.createSessionReq(&bogus, c.csSeq+1)
+	case "exchange-id-again":
+		v.exchangeIDAgain(c)
+		return
+	}
+	v.sit("slot-table-" + what + "-41")
+	v.rejected(what, s, req, what+" "+fmt.Sprint(opNames(decodeArgs(req))))
+	if what == "too-many-ops" {
+		s.present = false
+	}
+}
+
+// exchangeIDAgain retransmits the EXCHANGE_ID of a client: same client ID,
+// nothing allocated.
+func (v *v41) exchangeIDAgain(c *client41) {
+	req := encodeArgs(compound(1, "exchange_id", &nfsv4.NfsArgop4_OP_EXCHANGE_ID{OpexchangeId: nfsv4.ExchangeId4args{
+		EiaClientowner:  nfsv4.ClientOwner4{CoVerifier: c.verifier, CoOwnerid: c.ownerID},
+		EiaStateProtect: &nfsv4.StateProtect4A_SP4_NONE{},
+	}}))
+	before := v.fingerprint()
+	if v.abort {
+		return
+	}
+	p, ok := v.send(req, "RETRANSMIT EXCHANGE_ID")
+	if !ok {
+		return
+	}
+	v.dups++
+	after := v.fingerprint()
+	if v.abort {
+		return
+	}
+	v.sit("exchange-id-again-41")
+	v.logf("  EXCHANGE_ID c%d again -> %s", c.idx, statusName(p.res.Status))
+	v.shape = append(v.shape, "exchange-id-again")
+	r, is := p.res.Resarray[0].(*nfsv4.NfsResop4_OP_EXCHANGE_ID).OpexchangeId.(*nfsv4.ExchangeId4res_NFS4_OK)
+	if !is || r.EirResok4.EirClientid != c.id || before != after {
+		v.violate("C19 exchange-id-retransmission-not-idempotent v=4.1",
+			fmt.Sprintf("EXCHANGE_ID with the same owner and verifier returned %s (same client ID: %v) and changed state: %v", statusName(p.res.Status), is && r.EirResok4.EirClientid == c.id, before != after),
+			map[string]any{"before": before, "after": after})
+	}
+}
+
+// destroySession destroys the second session of a client: from outside any
+// session, from the other session, or from the session itself; possibly
+// while a request on one of the victim's slots is held in the file system
+// with retransmissions of it parked behind it. The held request and its
+// duplicates must complete as usual; afterwards the session refuses
+// everything without side effects.
+func (v *v41) destroySession(c *client41) {
+	victim, other := c.sessions[1], c.sessions[0]
+	mode := pick(v.rng, []string{"standalone", "from-other-session", "from-own-session"})
+	busy := v.rng.IntN(2) == 0
+	held := victim.slots[0]
+	g := &v.fs.gate
+	var orig *pending
+	var dups []*pending
+	var heldReq []byte
+	heldOp := &op41{kind: k41OpenNoent, c: c, o: c.owners[0], fname: "missing", access: nfsv4.OPEN4_SHARE_ACCESS_READ, want: nfsv4.NFS4ERR_NOENT, gate: gateOpenChild}
+	heldSeq := held.seq + 1
+	heldLabel := fmt.Sprintf("%s [sess %x slot %d seq %d] (its session is about to be destroyed)", heldOp, victim.id[:2], held.idx, heldSeq)
+	if busy {
+		heldReq = v.request(held, heldSeq, true, heldOp.kind, v.ops(heldOp))
+		g.arm(gateOpenChild, "missing")
+		defer g.disarm()
+		v.requests++
+		orig = v.srv.start(heldReq, heldLabel, true)
+		select {
+		case <-g.reached:
+		case <-orig.done:
+			v.desync(heldLabel+" did not reach the file system", orig.res.Status)
+			return
+		case <-time.After(callGrace):
+			v.judgeStuck(orig, heldLabel, "held-request-never-reached-gate", 3, time.Second)
+			v.abort = true
+			return
+		}
+		for i := 0; i < 1+v.rng.IntN(2); i++ {
+			v.requests++
+			dups = append(dups, v.srv.start(heldReq, "INFLIGHT-RETRANSMIT "+heldLabel, true))
+		}
+		parked := waitParked(dups, g, "opSequence")
+		v.logf("%s held; %d retransmissions parked=%v", heldLabel, len(dups), parked)
+		if parked {
+			v.sit("destroy-session-busy-slot-41")
+		}
+	}
+	op := &op41{kind: k41DestroyS, c: c, victim: victim, want: nfsv4.NFS4_OK}
+	var via *slot41
+	var req []byte
+	cache := v.rng.IntN(2) == 0
+	switch mode {
+	case "standalone":
+		req = encodeArgs(compound(1, "destroy_session", v.ops(op)...))
+	case "from-other-session":
+		via = other.slots[v.rng.IntN(len(other.slots)-1)] // not the probe slot
+		req = v.request(via, via.seq+1, cache, op.kind, v.ops(op))
+	case "from-own-session":
+		via = victim.slots[1+v.rng.IntN(len(victim.slots)-1)]
+		req = v.request(via, via.seq+1, cache, op.kind, v.ops(op))
+	}
+	p, ok := v.send(req, "DESTROY_SESSION "+mode)
+	if !ok {
+		return
+	}
+	v.logf("DESTROY_SESSION c%d sess %x %s busy=%v -> %s %v", c.idx, victim.id[:2], mode, busy, statusName(p.res.Status), resNames(p.res))
+	v.shape = append(v.shape, "destroy-session-"+mode)
+	v.sit("destroy-session-" + mode + "-41")
+	if p.res.Status != nfsv4.NFS4_OK || (via != nil && !seqResultOK(p.res, via, via.seq+1)) {
+		v.desync("DESTROY_SESSION "+mode, p.res.Status)
+		return
+	}
+	c.sessions = []*sess41{other}
+	if via != nil {
+		via.seq++
+		via.present, via.op, via.ops, via.req, via.reply, via.res, via.cache, via.probed = true, op, v.ops(op), req, p.enc, p.res, cache, ""
+	}
+	if busy {
+		g.open()
+		if !orig.wait(callGrace) {
+			v.judgeStuck(orig, heldLabel, "released-request-never-returned", 3, time.Second)
+			v.abort = true
+			return
+		}
+		v.logf("%s -> %s %v", heldLabel, statusName(orig.res.Status), resNames(orig.res))
+		if orig.res.Status != heldOp.want || !seqResultOK(orig.res, held, heldSeq) {
+			v.violate(fmt.Sprintf("C19 request-in-flight-across-destroy-session-lost v=4.1 got=%s", statusName(orig.res.Status)),
+				fmt.Sprintf("%s was being processed when its session was destroyed (%s); it returned %s %v instead of its own result", heldLabel, mode, statusName(orig.res.Status), resNames(orig.res)), nil)
+		}
+		v.judgeInflightDups("4.1", "OPEN_NOENT-across-DESTROY_SESSION", orig, dups, true, func(d *pending) bool {
+			// A duplicate that was not parked yet finds the session gone.
+			return d.res.Status == nfsv4.NFS4ERR_BADSESSION
+		})
+		if n := g.count(); n != 1 && !v.abort {
+			v.violate("C19 inflight-dup-reexecuted v=4.1 op=OPEN_NOENT-across-DESTROY_SESSION",
+				fmt.Sprintf("%s and its retransmissions reached the file system %d times; must be once", heldLabel, n), nil)
+		}
+		if v.abort {
+			return
+		}
+	}
+	// The destroyed session refuses new requests and retransmissions.
+	probeSlot := victim.slots[len(victim.slots)-1]
+	before := v.fingerprint()
+	if v.abort {
+		return
+	}
+	d, ok := v.send(v.request(probeSlot, probeSlot.seq+1, true, "noop", []nfsv4.NfsArgop4{&nfsv4.NfsArgop4_OP_PUTROOTFH{}}), "request on destroyed session")
+	if !ok {
+		return
+	}
+	v.dups++
+	var d2 *pending
+	if via != nil && mode == "from-own-session" {
+		if d2, ok = v.send(req, "RETRANSMIT DESTROY_SESSION from its own session"); !ok {
+			return
+		}
+		v.dups++
+	}
+	after := v.fingerprint()
+	if v.abort {
+		return
+	}
+	v.sit("request-on-destroyed-session-41")
+	if d.res.Status == nfsv4.NFS4_OK {
+		v.violate("C19 destroyed-session-still-executes v=4.1", "a request on a destroyed session was executed", nil)
+	}
+	if d2 != nil {
+		v.logf("  retransmit DESTROY_SESSION (own session) -> %s", statusName(d2.res.Status))
+		// The reply cache went away with the session: the original
+		// reply or an error are both acceptable, a re-execution is not
+		// observable as anything but "no state change".
+		if d2.res.Status == nfsv4.NFS4_OK && !bytes.Equal(d2.enc, p.enc) {
+			v.violate("C19 replay-reply-differs v=4.1 op=DESTROY_SESSION cachethis="+fmt.Sprint(cache)+" orig=NFS4_OK dup=NFS4_OK",
+				"retransmitted DESTROY_SESSION (from its own session) succeeded with a different reply", nil)
+		}
+		via.present = false
+	}
+	if before != after {
+		v.violate("C19 destroyed-session-side-effect v=4.1", "requests on a destroyed session changed observable state",
+			map[string]any{"before": before, "after": after})
+	}
+	if via != nil && mode == "from-other-session" && v.rng.IntN(2) == 0 {
+		v.checkReplay(via, "now")
+	}
 }
